@@ -26,7 +26,8 @@ Fold(cbs, i, c, dF, dG, e) ==
 
 CheckReq(e, c, dF, dG) ==
   LET r == Fold(e.cbs, 1, c, dF, dG, e) IN
-  IF e.outcome # "ok" THEN <<c, dF, dG, "internal_exception">>
+  IF e.outcome = "stopped" THEN (IF r[4] # "ok" THEN r ELSE <<r[1], r[2], r[3], "ok">>)   \* budget/failure/abort ended the run inside this request
+  ELSE IF e.outcome # "ok" THEN <<c, dF, dG, "internal_exception">>
   ELSE IF r[4] # "ok" THEN r
   ELSE IF \E i \in 1..Len(e.cbs) : \E p \in 1..Len(e.cbs[i].pts) : e.cbs[i].pts[p] \notin {e.xs[k] : k \in 1..Len(e.xs)} THEN <<c, dF, dG, "evaluation_at_unrequested_point">>
   ELSE IF e.split /\ (\E i \in 1..Len(e.evals) : e.evals[i].f /\ e.evals[i].g) THEN <<c, dF, dG, "split_evaluations_combined_evaluation">>
